@@ -21,6 +21,7 @@ use vh::*;
 trait Val: Hash + Eq + Clone + Debug + Default {
     fn token(&self) -> String;
     fn pool() -> Vec<Self>;
+    fn parse(tok: &str) -> Self;
     const NAME: &'static str;
 }
 impl Val for String {
@@ -38,6 +39,14 @@ impl Val for String {
         }
         v
     }
+    fn parse(tok: &str) -> String {
+        let h = &tok[1..];
+        if h == "-" {
+            return String::new();
+        }
+        let bytes: Vec<u8> = (0..h.len() / 2).map(|i| u8::from_str_radix(&h[2 * i..2 * i + 2], 16).unwrap()).collect();
+        String::from_utf8(bytes).unwrap()
+    }
     const NAME: &'static str = "String";
 }
 impl Val for i64 {
@@ -50,6 +59,9 @@ impl Val for i64 {
             v.push(1000 + i * 37);
         }
         v
+    }
+    fn parse(tok: &str) -> i64 {
+        tok.parse().unwrap()
     }
     const NAME: &'static str = "i64";
 }
@@ -318,7 +330,22 @@ fn gen_history<T: Val>(rng: &mut Rng, max_ops: usize) -> Vec<Op<T>> {
                 }
             }
         }
+        let mut follow: Vec<Op<T>> = vec![];
         for op in &ops[before..] {
+            // clear() followed at once by re-insertion of the values inserted just before it: ids must restart
+            // at 0 and the value must really be stored again (nothing cached across clear() may survive)
+            if let Op::Clear(g) = op {
+                if let Some(kn) = known.get(g) {
+                    if !kn.is_empty() && rng.chance(2, 3) {
+                        follow.push(Op::Ins(*g, kn[kn.len() - 1].clone()));
+                        if kn.len() >= 2 && rng.chance(1, 2) {
+                            follow.push(Op::Ins(*g, kn[kn.len() - 2].clone()));
+                        }
+                        follow.push(Op::Len(*g));
+                        follow.push(Op::Idx(*g, 0));
+                    }
+                }
+            }
             match op {
                 Op::New => {
                     known.insert(total - 1, vec![]);
@@ -333,6 +360,13 @@ fn gen_history<T: Val>(rng: &mut Rng, max_ops: usize) -> Vec<Op<T>> {
                 }
                 _ => {}
             }
+        }
+        for f in follow {
+            if let Op::Ins(g, x) = &f {
+                known.entry(*g).or_default().push(x.clone());
+                *sizes.entry(*g).or_insert(0) += 1;
+            }
+            ops.push(f);
         }
     }
     // final dump of every live set
@@ -501,6 +535,17 @@ fn run_history<T: Val>(ops: &[Op<T>]) -> HistResult {
             }
         };
         imp.push(ans);
+        if !fails.is_empty() {
+            // an answer contradicts the reference: this set can no longer be trusted (it may hold a stale
+            // pointer), so the history stops here and nothing is dropped
+            hist.push("abandoned:answer-contradicts-reference");
+            for s in sets.iter_mut() {
+                if let Some(l) = s.take() {
+                    std::mem::forget(l);
+                }
+            }
+            break;
+        }
         if mutated {
             if let Err(e) = check_layout(&sets) {
                 fails.push(format!("{}: {e}", descr(k + 1)));
@@ -529,6 +574,22 @@ fn regression<T: Val>() -> Vec<Vec<Op<T>>> {
             Op::Get(1, p[2].clone()), Op::Ins(1, p[2].clone()), Op::Ins(1, p[4].clone()), Op::Ins(0, p[4].clone()), Op::Idx(1, 2),
             Op::Iter(0), Op::Iter(1), Op::Lay(0), Op::Lay(1),
         ],
+        // clear, then insert the value that was inserted last before the clear: id 0 again, len 1, stored anew
+        vec![
+            Op::New, Op::Ins(0, p[1].clone()), Op::Ins(0, p[2].clone()), Op::Clear(0), Op::Ins(0, p[2].clone()), Op::Len(0),
+            Op::Idx(0, 0), Op::Get(0, p[2].clone()), Op::Get(0, p[1].clone()), Op::Iter(0), Op::Lay(0), Op::Ins(0, p[1].clone()),
+            Op::Ins(0, p[1].clone()), Op::Iter(0),
+        ],
+        // clone, clear the original, re-insert the last value into both
+        vec![
+            Op::New, Op::Ins(0, p[1].clone()), Op::Ins(0, p[2].clone()), Op::Clone(0), Op::Clear(0), Op::Ins(0, p[2].clone()),
+            Op::Ins(1, p[2].clone()), Op::Len(0), Op::Len(1), Op::Iter(0), Op::Iter(1), Op::Lay(0), Op::Lay(1),
+        ],
+        // the same value inserted several times in a row, across a buffer switch
+        vec![
+            Op::New, Op::Ins(0, p[1].clone()), Op::Ins(0, p[1].clone()), Op::Ins(0, p[2].clone()), Op::Ins(0, p[2].clone()),
+            Op::Ins(0, p[2].clone()), Op::Ins(0, p[3].clone()), Op::Ins(0, p[3].clone()), Op::Iter(0), Op::Lay(0),
+        ],
         // duplicate insert exactly when the buffer is full (switches buffers, then pops)
         vec![
             Op::New, Op::Ins(0, p[1].clone()), Op::Ins(0, p[2].clone()), Op::Lay(0), Op::Ins(0, p[1].clone()), Op::Lay(0),
@@ -537,37 +598,169 @@ fn regression<T: Val>() -> Vec<Vec<Op<T>>> {
     ]
 }
 
-fn drive<T: Val>(ctx: &mut Ctx, n: usize, max_ops: usize) {
-    let mut hs: Vec<Vec<Op<T>>> = regression::<T>();
-    for _ in 0..n {
-        hs.push(gen_history::<T>(&mut ctx.rng, max_ops));
+fn parse_op<T: Val>(tok: &str) -> Op<T> {
+    let mut p = tok.splitn(3, ':');
+    let name = p.next().unwrap();
+    let h: usize = p.next().map(|x| x.parse().unwrap()).unwrap_or(0);
+    let rest = p.next();
+    match name {
+        "new" => Op::New,
+        "ins" => Op::Ins(h, T::parse(rest.unwrap())),
+        "get" => Op::Get(h, T::parse(rest.unwrap())),
+        "has" => Op::Has(h, T::parse(rest.unwrap())),
+        "idx" => Op::Idx(h, rest.unwrap().parse().unwrap()),
+        "len" => Op::Len(h),
+        "iter" => Op::Iter(h),
+        "into" => Op::Into(h),
+        "clear" => Op::Clear(h),
+        "clone" => Op::Clone(h),
+        "drop" => Op::Drop(h),
+        "lay" => Op::Lay(h),
+        x => panic!("bad op {x}"),
     }
-    for (i, ops) in hs.iter().enumerate() {
-        let r = match catch_unwind(AssertUnwindSafe(|| run_history(ops))) {
-            Ok(r) => r,
-            Err(p) => {
-                ctx.spec_fail(format!("IdSet<{}> history {:?} panicked: {}", T::NAME, ops.iter().map(op_token).collect::<Vec<_>>(), panic_msg(p)));
-                continue;
-            }
+}
+
+/// Child process: runs the histories it reads (`<type>\t<idx>\t<op tokens>`) on the real IdSet.  A defect in the
+/// set can be a real use-after-free, which may kill the process: every history is announced (`B`) before it
+/// runs and its findings are flushed as soon as they are known, so the parent can name the history.
+fn child() {
+    use std::io::{BufRead, Write};
+    std::panic::set_hook(Box::new(|_| {}));
+    let stdin = std::io::stdin();
+    let out = std::io::stdout();
+    for line in stdin.lock().lines() {
+        let line = line.unwrap();
+        let mut p = line.splitn(3, '\t');
+        let ty = p.next().unwrap().to_string();
+        let idx: usize = p.next().unwrap().parse().unwrap();
+        let toks: Vec<String> = p.next().unwrap().split(' ').map(|x| x.to_string()).collect();
+        {
+            let mut o = out.lock();
+            writeln!(o, "B\t{idx}").unwrap();
+            o.flush().unwrap();
+        }
+        let r = if ty == "String" {
+            let ops: Vec<Op<String>> = toks.iter().map(|t| parse_op(t)).collect();
+            catch_unwind(AssertUnwindSafe(|| run_history(&ops)))
+        } else {
+            let ops: Vec<Op<i64>> = toks.iter().map(|t| parse_op(t)).collect();
+            catch_unwind(AssertUnwindSafe(|| run_history(&ops)))
         };
-        for f in r.fails {
-            if ctx.spec_failures.len() < 100 {
-                ctx.spec_fail(f);
+        let mut o = out.lock();
+        match r {
+            Ok(r) => {
+                for f in &r.fails {
+                    writeln!(o, "F\t{idx}\t{}", f.replace('\n', " ")).unwrap();
+                }
+                for h in &r.hist {
+                    writeln!(o, "H\t{h}").unwrap();
+                }
+                writeln!(o, "C\t{idx}\t{}\t{}", r.req, r.imp).unwrap();
             }
-            ctx.count("spec-failures");
+            Err(e) => writeln!(o, "F\t{idx}\tIdSet<{ty}> history [{}] panicked: {}", toks.join(" "), panic_msg(e)).unwrap(),
         }
-        for h in r.hist {
-            ctx.count(h);
-        }
-        ctx.case(format!("{} #{}-{}", r.req, T::NAME, i), r.imp);
+        writeln!(o, "E\t{idx}").unwrap();
+        o.flush().unwrap();
+    }
+}
+
+struct Hist {
+    ty: &'static str,
+    toks: Vec<String>,
+}
+
+fn collect<T: Val>(ctx: &mut Ctx, n: usize, max_ops: usize, out: &mut Vec<Hist>) {
+    for ops in regression::<T>() {
+        out.push(Hist { ty: T::NAME, toks: ops.iter().map(op_token).collect() });
+    }
+    for _ in 0..n {
+        let ops = gen_history::<T>(&mut ctx.rng, max_ops);
+        out.push(Hist { ty: T::NAME, toks: ops.iter().map(op_token).collect() });
     }
 }
 
 fn main() {
+    use std::io::Write;
+    if std::env::args().nth(1).as_deref() == Some("--child") {
+        child();
+        return;
+    }
     let mut ctx = Ctx::from_env("C37");
     let (n, max_ops) = if ctx.quick() { (400, 40) } else { (6000, 160) };
-    drive::<String>(&mut ctx, n, max_ops);
-    drive::<i64>(&mut ctx, n, max_ops);
+    let mut hs: Vec<Hist> = vec![];
+    collect::<String>(&mut ctx, n, max_ops, &mut hs);
+    collect::<i64>(&mut ctx, n, max_ops, &mut hs);
+    let exe = std::env::current_exe().unwrap();
+    let mut next = 0usize;
+    let mut deaths = 0usize;
+    while next < hs.len() {
+        let input: String = (next..hs.len()).map(|i| format!("{}\t{}\t{}\n", hs[i].ty, i, hs[i].toks.join(" "))).collect();
+        let mut ch = std::process::Command::new(&exe)
+            .arg("--child")
+            .stdin(std::process::Stdio::piped())
+            .stdout(std::process::Stdio::piped())
+            .stderr(std::process::Stdio::null())
+            .spawn()
+            .expect("spawn child");
+        let mut stdin = ch.stdin.take().unwrap();
+        let w = std::thread::spawn(move || {
+            let _ = stdin.write_all(input.as_bytes());
+        });
+        let outp = ch.wait_with_output().unwrap();
+        let _ = w.join();
+        let text = String::from_utf8_lossy(&outp.stdout).to_string();
+        let mut begun: Option<usize> = None;
+        let mut ended: Option<usize> = None;
+        for l in text.lines() {
+            let f: Vec<&str> = l.splitn(4, '\t').collect();
+            match f[0] {
+                "B" => begun = f[1].parse().ok(),
+                "E" => ended = f[1].parse().ok(),
+                "H" => ctx.count(f[1]),
+                "F" => {
+                    if ctx.spec_failures.len() < 100 {
+                        ctx.spec_fail(f[2..].join(" "));
+                    }
+                    ctx.count("spec-failures");
+                }
+                "C" if f.len() == 4 => {
+                    let i: usize = f[1].parse().unwrap_or(0);
+                    ctx.case(format!("{} #{}-{}", f[2], hs[i].ty, i), f[3].to_string());
+                }
+                _ => {}
+            }
+        }
+        match (begun, ended) {
+            (Some(b), Some(e)) if b == e => next = b + 1,
+            (Some(b), _) => {
+                deaths += 1;
+                if ctx.spec_failures.len() < 100 {
+                    ctx.spec_fail(format!(
+                        "IdSet<{}> history [{}]: the process running this history died ({}) — a safe operation sequence must not crash (use of freed memory?)",
+                        hs[b].ty,
+                        hs[b].toks.join(" "),
+                        outp.status
+                    ));
+                }
+                ctx.count("spec-failures");
+                next = b + 1;
+                if deaths >= 25 {
+                    ctx.notes.push(format!("stopped after {deaths} histories killed the process; {} histories not run", hs.len() - next));
+                    break;
+                }
+            }
+            (None, _) => {
+                ctx.spec_fail(format!("child produced no output: {}", outp.status));
+                break;
+            }
+        }
+        if outp.status.success() {
+            break;
+        }
+    }
+    if deaths > 0 {
+        ctx.notes.push(format!("{deaths} child processes died inside a history"));
+    }
     if !ctx.quick() {
         miri_stage(&mut ctx);
     }
